@@ -695,6 +695,7 @@ func acctSx(r *prng.R, ver wallet.Version, kind int) (sx.V, string) {
 func genC15(c *Ctx) {
 	r := c.R
 	genC15R8(c) // 0. first, so that every later case is answered after callers modified in depth what they were handed (c15_r8.go)
+	genC15R8b(c) // 0b. the grid account status x stored seqno for every version through every API that yields send parameters (c15_r8b.go)
 	// 1. addresses: every version x options x keys; the three APIs
 	seen := map[string]string{}
 	na := c.Scale(3, 20)
